@@ -58,6 +58,9 @@ def _child(inp, path, wfd):
                 return ("d", bytes([0x80, cmd, 1]))
             if inp["dev"] == "refuse":
                 return ("w", 0x69A0) if cmd == 0x08 else ("d", bytes([0x80, cmd, 0]))
+            if inp["dev"] in ("linkW", "linkR", "timeout"):
+                # the link fails on the exchange that carries the new PIN: nothing is acknowledged
+                return {"linkW": ("W",), "linkR": ("r",), "timeout": ("t",)}[inp["dev"]]
             return ("w", 0x6A01)
         if cmd in (0xFF, 0xFA):
             state["mode"] = 3
